@@ -59,6 +59,8 @@ FLAVOURS = {
     # sanitizer flavour (C20): ASan + UBSan (incl. enum, bounds, signed overflow), libstdc++ assertions; aborts on the first report
     's': dict(cxx='g++', cflags=['-std=c++17', '-O0', '-g1', '-w', '-fsanitize=address,undefined', '-fsanitize=float-cast-overflow', '-fno-sanitize-recover=all', '-fno-omit-frame-pointer', '-D_GLIBCXX_ASSERTIONS'],
               ldflags=['-fsanitize=address,undefined']),
+    # Clang flavour: the registry translation units (everything that includes the library) are compiled with clang++ -O2; the engines stay g++
+    'c': dict(cxx='g++', cxx_tree='clang++', cflags=['-std=c++17', '-O2', '-g0', '-w'], ldflags=[]),
     # libFuzzer flavour: clang, coverage-guided, ASan + UBSan
     'f': dict(cxx='clang++', cflags=['-std=c++17', '-g', '-O1', '-w', '-fsanitize=fuzzer,address,undefined', '-fno-sanitize-recover=undefined'], ldflags=['-fsanitize=fuzzer,address,undefined']),
 }
@@ -100,7 +102,7 @@ def obj_path(o, flavour):
     if o['opt']: flags = [f for f in flags if not re.fullmatch(r'-O\d', f)] + [o['opt']]
     flags += o['defs']
     src = os.path.join(SRC, o['src'])
-    key = sha(local_deps_hash(src), ' '.join(flags), fl['cxx'], (tree_hash() + scan_hash()) if o['tree'] else 'engine')[:10]
+    key = sha(local_deps_hash(src), ' '.join(flags), fl.get('cxx_tree', fl['cxx']) if o['tree'] else fl['cxx'], (tree_hash() + scan_hash()) if o['tree'] else 'engine')[:10]
     d = os.path.join(tree_dir() if o['tree'] else os.path.join(BUILD, 'engine'), flavour)
     tag = re.sub(r'[^A-Za-z0-9]+', '', ''.join(o['defs']))
     return os.path.join(d, '%s.%s.%s.o' % (os.path.splitext(o['src'])[0], tag, key)), flags
@@ -110,7 +112,7 @@ def compile_obj(o, flavour):
     if os.path.exists(out): return out
     os.makedirs(os.path.dirname(out), exist_ok=True)
     fl = FLAVOURS[flavour]
-    cmd = [fl['cxx']] + flags + ['-I', SRC]
+    cmd = [fl.get('cxx_tree', fl['cxx']) if o['tree'] else fl['cxx']] + flags + ['-I', SRC]
     if o['tree']: cmd += ['-I', gen_dir(), '-I', os.path.join(REPO, 'include')]
     cmd += ['-c', os.path.join(SRC, o['src']), '-o', out + '.tmp']
     t0 = time.time()
@@ -212,7 +214,7 @@ class Run:
     def merge_engine_result(self, path, binary, flavour='n'):
         r = json.load(open(path))
         self.evaluations += r['evaluations']; self.nontrivial += r['distinct_nontrivial']
-        pre = '' if flavour == 'n' else 'san:'
+        pre = {'n': '', 's': 'san:', 'c': 'clang:'}.get(flavour, flavour + ':')
         for k, v in r.get('classes', {}).items(): self.classes[pre + k] = self.classes.get(pre + k, 0) + v
         for k, v in r.get('rules', {}).items(): self.rules[k] = v
         for k, v in r.get('per_check', {}).items(): self.per_check[pre + k] = v
@@ -433,7 +435,7 @@ def main(argv):
         return replay(argv[1])
     if argv and argv[0] == '--build':
         fl = argv[1] if len(argv) > 1 else 'n'
-        names = argv[2:] or [n for n in BINARIES if n.startswith('fuzz') == (fl == 'f') and not (fl == 's' and n == 'introspect')]
+        names = argv[2:] or ([n for n in ('units', 'qty', 'rel')] if fl == 'c' else [n for n in BINARIES if n.startswith('fuzz') == (fl == 'f') and not (fl == 's' and n == 'introspect')])
         t0 = time.time()
         try:
             build(names, fl)
